@@ -517,7 +517,16 @@ def run(ctx):
             for x in mm:
                 x["case"] = case
                 mism.append(x)
-            for klass, what in oracle(su, init, m, o):
+            found = oracle(su, init, m, o)
+            if any(k_ == "wait" for k_, _ in found):
+                # a wall-clock measurement: the same schedule is run once more; a wait that does not come back was a
+                # stall of the machine (snapshot of the sandbox, swap), not of the lock protocol, which is deterministic
+                # under the controller
+                again = oracle(su, init, m, run_real(cli, su, init, m, s))
+                if not any(k_ == "wait" for k_, _ in again):
+                    found = [x_ for x_ in found if x_[0] != "wait"]
+                    ctx.cov["waits_not_reproduced"] = ctx.cov.get("waits_not_reproduced", 0) + 1
+            for klass, what in found:
                 rec = {"kind": "property-oracle", "class": klass, "what": what, "case": case,
                        "model": {"target": m["target"], "vers": m["vers"], "acks": {p: d["ack"] for p, d in m["procs"].items()}},
                        "replay_cmd": "python3 tools/vp.py check C14 --replay <this file>"}
